@@ -9,6 +9,7 @@
    can still be waiting: request ids in the handler map, in the task channel, and of senders that
    hold a channel slot ([c_reserved]). *)
 From SV Require Import Base.Prelude Base.Bytes Model.ConnFail Proofs.ConnFail_proofs.
+From SV Require Import Model.Retry Proofs.ConnFail_retry.
 Open Scope N_scope.
 
 (* For EVERY schedule: once a fault label (end of stream at any byte offset, bad header, frame
@@ -134,6 +135,24 @@ Theorem C10_no_partial : forall ctl st r f,
   frame_ok f /\ exists pre post, c_received st = pre ++ f_raw f ++ post.
 Proof. exact no_partial. Qed.
 
+(* Framing: the bytes received are exactly the frames consumed so far, one after the other, followed
+   by the unconsumed rest; every consumed frame passed the checks; a delivered frame is one of them.
+   (Stronger than "a contiguous part": delivered frames are frame-aligned.) *)
+Theorem C10_framing : forall ctl st, reachable ctl st ->
+  c_received st = concat (map f_raw (c_consumed st)) ++ c_rbuf st /\
+  Forall frame_ok (c_consumed st) /\
+  (forall r f, In (r, Resp f) (c_done st) -> In f (c_consumed st)).
+Proof. exact framing. Qed.
+
+(* "(and is retried elsewhere only as the retry policy allows)": what a torn-down connection gives a
+   request is a BrokenConnectionError; for EVERY policy of C06's model (default, downgrading,
+   fall-through), every policy state and consistency, a NON-idempotent request that got it is not sent
+   again.  (That an idempotent one may be is C10_ex_retry_idempotent; how often and where is C06.) *)
+Theorem C10_retry_clause : forall o e s cl s' d,
+  broken_class o = true -> attempt_error_of o = Some e ->
+  decide s (mk_ri e false cl) = (s', d) -> is_retry d = false.
+Proof. exact retry_clause. Qed.
+
 (* No caller is handed a frame of another request: a frame delivered to r carries the stream id
    that r was written with ... *)
 Theorem C10_no_cross : forall ctl st r f,
@@ -235,13 +254,89 @@ Example C10_ex_orphan :
 Proof. vm_compute. repeat split; reflexivity. Qed.
 
 Example C10_ex_pool :
-  match prun pool_init [PAdd 1; PAdd 2; PBreak 1; PGet 1; PProcess] with
-  | Some p => p_shared p = [2] /\ p_broken p = [1] /\ p_events p = [] /\ pstep p (PGet 1) = None
+  match prun pool_init [PAdd 1; PAdd 2; PAdd 3; PBreak 1; PBreak 3; PGet 1; PProcess 3] with
+  | Some p => p_shared p = [1; 2] /\ p_broken p = [1; 3] /\ p_events p = [1] /\ pstep p (PGet 3) = None /\
+              pstep p (PProcess 3) = None /\ pstep p (PGet 1) = Some p
+  | None => False
+  end.
+Proof. vm_compute. repeat split; reflexivity. Qed.
+
+(* ---- anchors of the definitions the tie's driver uses (accepting AND rejecting inputs) ---- *)
+Definition ex_frame (stream : N) (body : list N) : list N := ex_hdr stream (N.of_nat (List.length body)) ++ body.
+
+Example C10_ex_retry_idempotent :
+  default_decide default_new (mk_ri EBrokenConnectionError true COne) = (default_new, RetryNextTarget None) /\
+  default_decide default_new (mk_ri EBrokenConnectionError false COne) = (default_new, DontRetry) /\
+  attempt_error_of (FailBroken EKeepaliveTimeout) = Some EBrokenConnectionError /\
+  attempt_error_of FailChannel = Some EBrokenConnectionError /\
+  attempt_error_of FailAlloc = Some EUnableToAllocStreamId /\
+  attempt_error_of (Resp (mk_frame (ex_hdr 0 0) [])) = None.
+Proof. repeat split; reflexivity. Qed.
+
+Example C10_ex_resend_ok :
+  resend_ok false 1 = true /\ resend_ok false 2 = false /\ resend_ok true 3 = true /\ resend_ok false 0 = true.
+Proof. repeat split; reflexivity. Qed.
+
+Example C10_ex_broken_class :
+  broken_class (FailBroken EHeaderIo) = true /\ broken_class FailChannel = true /\
+  broken_class FailAlloc = false /\ broken_class (Resp (mk_frame (ex_hdr 0 0) [])) = false.
+Proof. repeat split; reflexivity. Qed.
+
+(* sent_for / justified: only a COMPLETE frame on the request's own stream, written while the request
+   holds the stream, justifies a body *)
+Example C10_ex_justified :
+  let t := [TIn 0 2 false; TOut (ex_frame 0 [7; 8]); TIn 1 4 false; TOut (firstn 10 (ex_frame 1 [9; 9]));
+            TIn 0 6 false; TOut (ex_frame 0 [5])] in
+  sent_for 0 2 false t = [[7; 8]] /\ sent_for 0 6 false t = [[5]] /\ sent_for 1 4 false t = [] /\
+  justified 2 [7; 8] [t] = true /\
+  justified 6 [7; 8] [t] = false /\      (* body of another request on the same stream id *)
+  justified 4 [9; 9] [t] = false /\      (* frame cut after 10 of 11 bytes *)
+  justified 2 [7] [t] = false /\         (* prefix of what was sent *)
+  justified 2 [7; 8] [] = false /\
+  streams_of 2 t = [0] /\ streams_of 8 t = [].
+Proof. vm_compute. repeat split; reflexivity. Qed.
+
+(* simulate: outcomes of a cut trace, of a reset trace with a delivered prefix, of a healthy one *)
+Example C10_ex_simulate :
+  let cut := [TIn 0 2 false; TIn 1 4 false; TOut (ex_frame 1 [3]); TOut [132; 0; 0]; TFin] in
+  let st := simulate None cut in
+  c_status st = Broken EHeaderIo /\
+  outcome_of 4 (c_done st) = Some (Resp (mk_frame (ex_hdr 1 1) [3])) /\
+  outcome_of 2 (c_done st) = Some (FailBroken EHeaderIo) /\ outcome_of 6 (c_done st) = None /\
+  let rst := [TIn 0 2 false; TOut (ex_frame 0 [3]); TRst] in
+  outcome_of 2 (c_done (simulate None rst)) = Some (Resp (mk_frame (ex_hdr 0 1) [3])) /\
+  outcome_of 2 (c_done (simulate (Some O) rst)) = Some (FailBroken (EEnv 1)) /\
+  let healthy := [TIn 0 2 false; TOut (ex_frame 0 [3]); TClose] in
+  c_status (simulate None healthy) = Open /\
+  let stalled := [TIn 0 2 false; TIn 1 3 true; TClose] in
+  outcome_of 2 (c_done (simulate None stalled)) = Some (FailBroken EKeepaliveTimeout).
+Proof. vm_compute. repeat split; reflexivity. Qed.
+
+(* skipped_labels: a trace that is not a run of the model is noticed (stream id in use written twice;
+   an answer nobody can have asked for is NOT a skipped label -- it is a fault of the run) *)
+Example C10_ex_skipped :
+  skipped_labels (conn_init false) (labels_of None [TIn 0 2 false; TOut (ex_frame 0 [1]); TClose]) = 0%nat /\
+  skipped_labels (conn_init false) (labels_of None [TIn 0 2 false; TIn 0 4 false]) = 1%nat /\
+  skipped_labels (conn_init false) (labels_of None [TIn 0 2 false; TIn 1 2 false]) = 3%nat /\
+  skipped_labels (conn_init false) [Recv [1]; Eof; Eof] = 1%nat.
+Proof. vm_compute. repeat split; reflexivity. Qed.
+
+(* td_measure / chan_closed / pending_rids on the phases of a teardown *)
+Example C10_ex_phases :
+  match run (conn_init false) [Reserve 1; Push 1; WriterTake (Some 0); Reserve 2; Push 2; Reserve 3; Eof] with
+  | Some st => td_measure st = 6%nat /\ chan_closed st = false /\ pending_rids st = [1; 2; 3] /\
+      match run st [TdStep; TdStep] with
+      | Some st' => c_status st' = Draining EHeaderIo /\ td_measure st' = 4%nat /\ chan_closed st' = true /\
+                    pending_rids st' = [2; 3] /\ td_measure (conn_init false) = 0%nat
+      | None => False
+      end
   | None => False
   end.
 Proof. vm_compute. repeat split; reflexivity. Qed.
 
 Print Assumptions C10_all_fail.
+Print Assumptions C10_framing.
+Print Assumptions C10_retry_clause.
 Print Assumptions C10_accounting.
 Print Assumptions C10_none_left.
 Print Assumptions C10_later_submit_fails.
